@@ -45,6 +45,25 @@ CLAIMED = {
          "(S(q + kP) = S(q) for every integer k, using the equal-ends check), C07_ends; rem_euclid law proved for the Rat instance. "
          "Exact runs at Q with k up to +-10^6 and points next to the range ends; f64 with tolerance.", "§5 C07",
          "f64: rounding of the wrapped argument tested with a tolerance only", "Lean 4 proof (floor/representative uniqueness) + exact periodicity runs"),
+ "C08": ("Kernel-checked, for ARBITRARY scalar operations (bit-identity): every model function written with the lane-wise maps commutes "
+         "with the lane projection row -> row[j]? and with the single-lane embedding (Lemmas/LanesHom): C08_linear, C08_bilinear, "
+         "C08_spline_solve (shared diagonals and elimination factors), C08_spline_coeffs, C08_spline_eval, C08_other_lanes(_spline). "
+         "Runs: lane j of n-d results vs the interpolator built from lane j alone and vs randomised other lanes, exact at Q and bit for "
+         "bit at f64, Ix1..Ix6 and IxDyn, length-0/1 axes, per-lane boundaries.", "§5 C08",
+         "Individual boundaries are lane-wise by construction in the model; flattening checked by runs",
+         "Lean 4 proof (naturality w.r.t. lane homomorphisms) + per-lane differential runs"),
+ "C09": ("Kernel-checked, generic over scalar type and strategy: C09_array_elem / C09_array_err (block k of interp_array = interp of element "
+         "k; first error wins), C09_scalar, C09_into_eq_alloc, C09_fast_eq_general (accumulating left fold with early exit = per-element "
+         "loop), C09_shape / C09_shape_dyn (DimAdd output type and DimExtension::new yield exactly query shape ++ trailing dims). Runs over "
+         "Dq in Ix0..Ix4/IxDyn x D in Ix1..Ix6/IxDyn, zero-length axes, rank > 6, element-by-element agreement of entry points.", "§5 C09",
+         "dimension-type algebra modelled from ndarray 0.16 and cross-checked against type_name in C19's enumeration",
+         "Lean 4 proof (list induction, finite dimension table) + entry-point agreement runs"),
+ "C10": ("Kernel-checked: closed form of both validation chains (C10_validate1_eq/2_eq), success iff Valid (C10_iff_1d/2d), kind of the error "
+         "names a violated requirement (C10_kind_1d), never a panic (C10_no_panic(_2d)), accepted axis is unmodified and NaN-free for ANY "
+         "comparison operators (C10_axis_unmodified, C10_nan via C12_nan), Linear/Bilinear build iff validation, spline = validation then "
+         "the strategy's own errors unchanged. The full decision table (1 496 cases quick) through model and code with an independent Valid "
+         "oracle; D4 witnesses in the corpus.", "§5 C10", "spline build on validated n-d input: no-panic by C02_build per lane + runs",
+         "Lean 4 proof (case analysis of the chain over C12) + exhaustive decision-table correspondence"),
  "C11": ("Theorems for every axis/length/guess/query (C11_bracket for ANY in-range initial guess, C11_guess, C11_exact, C11_unique) over "
          "any linear order resp. ordered field; exact-rational correspondence of get_lower_index, f64 index comparison, linear-scan "
          "oracle, exhaustive (length, guess, rank) family.", "§5 C11",
@@ -53,6 +72,16 @@ CLAIMED = {
  "C12": ("Theorems for every list: C12_classify/C12_iff (any linear order), C12_nan (no assumption on the comparisons), "
          "C12_shortcircuit; exhaustive relation words and NaN placements through crate and model.", "§5 C12",
          "IEEE non-NaN order trusted", "Lean 4 proof (automaton invariant by induction) + exhaustive word correspondence"),
+ "C13": ("Kernel-checked: C13_buffer (view model: any two buffers of equal shape with injective addressing receive the same logical contents "
+         "— no stride condition; false of the unrepaired reshape path) and C13_facts (regenerated source facts: no layout-sensitive "
+         "ndarray API is called outside tests). Every case is run with random layouts of data/axes/queries/buffers against the "
+         "layout-blind model (exact) and against its all-C-order twin (bit for bit); D2 witnesses in the corpus.", "§5 C13",
+         "ndarray's own stride arithmetic trusted and exercised", "Lean 4 proof (view/memory model) + layout-blind correspondence"),
+ "C14": ("Kernel-checked on the view/memory model of the repaired entry points: C14_ok_iff_shape / C14_into_shape / C14_mem_shape (Ok only "
+         "for exactly the required shape, otherwise panic before any strategy call), C14_all_written (on Ok the view holds exactly the "
+         "allocating variant's values; proved via decomposition of a view into its index_axis sub-views) and frame (addresses outside the "
+         "view unchanged). Runs with poisoned windows and every wrong-shape family; D3 witnesses in the corpus.", "§5 C14",
+         "real-memory frame property rests on safe Rust/ndarray; exercised by poisoned windows", "Lean 4 proof (view decomposition, write/read lemmas) + poisoned-buffer runs"),
  "C15": ("Kernel-checked: Linear — scale data, superposition, any strictly increasing axis relabelling commuting with calc_frac, instantiated "
          "to scaling by c>0 and shifting; Bilinear — scale data; spline — homogeneity of the tridiagonal solve in its right-hand sides; "
          "bit-for-bit half C15_hom_linear_data for ARBITRARY scalar operations. Metamorphic pairs on the real code: exact at Q for every "
@@ -65,6 +94,21 @@ CLAIMED = {
          "C16_natural_line. Exact reproduction checked at Q for random dyadic polynomials, all spacings, extrapolated queries, lanes with "
          "different polynomials.", "§5 C16", "f64 'up to rounding' via C01/C02 closeness runs",
          "Lean 4 proof (uniqueness of the spline + exact Hermite interpolation) + exact reproduction runs"),
+ "C17": ("Kernel-checked: C17_state, C17_history, C17_perm, C17_schedule (any interleaving of per-thread sequences) on the step model, and "
+         "C17_facts by evaluation over the source facts regenerated on every run (all 24 query methods take &self, no &mut self, no interior "
+         "mutability or global state outside tests/hooks). Runs: random histories replayed permuted and on 2..16 threads against fresh "
+         "interpolators, bit for bit incl. errors and panics; Send+Sync compile-time assertions.", "§5 C17",
+         "facts => immutability is Rust's shared-reference guarantee (trusted)", "Lean 4 proof (step model + decide on extracted source facts) + concurrent history replay"),
+ "C18": ("Kernel-checked on the builder/entry-point model generic in the user strategy: C18_build_guard(_2d) (builder consulted only after "
+         "validation, with the unmodified validated inputs), C18_build_error, C18_calls / C18_calls_prefix (one call per element in order, "
+         "nothing after the first failure), C18_call_error (error passed through every entry point), C18_accessors. Runs with recording / "
+         "failing strategies, minimum 0..4, failure at every call index.", "§5 C18", "target shapes checked by the harness only",
+         "Lean 4 proof (generic strategy model) + recording-strategy runs"),
+ "C19": ("Kernel-checked: C19_table (whole finite dimension-type table), C19_sites and C19_unsafe by evaluation over the cast sites, guards and "
+         "type expressions extracted from the source on every run; C09_fast_eq_general for unobservability. Enumeration of 221 real "
+         "instantiations with the guarded hook comparing type_name/size/align at every cast, cast counters, ndarray's actual DimAdd output "
+         "type names, fast vs general vs single bit for bit.", "§5 C19", "UB itself unobservable; argument is type identity",
+         "Lean 4 proof (decide over finite table + extracted sites) + exhaustive instantiation run with hooks"),
  "C20": ("Theorems C20_linear_data / C20_bilinear_data for ARBITRARY scalar operations (bit-identity, NaN/inf included) and "
          "C20_linear_axis / C20_bilinear_axis over ordered fields (bracket transfer); metamorphic bitwise runs on the real f64 code "
          "with poisoned rows/columns and moved knots.", "§5 C20", "axis variant for floats rests on the same-bracket premise exercised by the runs",
